@@ -39,10 +39,7 @@ import (
 	"verifh/vh"
 )
 
-const (
-	sigStatus = "check-status-neither-pass-nor-fail"
-	sigTorn   = "snapshot-of-checks-not-atomic"
-)
+const sigTorn = "snapshot-of-checks-not-atomic"
 
 type jchk struct {
 	Name   string `json:"name"`
@@ -313,13 +310,13 @@ func explain(states []simState, q *jreq) bool {
 		if !q.Ready {
 			return has(q.Checks, e)
 		}
-		if q.Code == 503 {
-			if e.Status == "fail" {
+		if q.Code == 503 { // the checks that do not pass are listed
+			if e.Status != "pass" {
 				return has(q.Checks, e)
 			}
 			return !hasName(q.Checks, e.Name)
 		}
-		return e.Status != "fail"
+		return e.Status == "pass"
 	}
 	if q.Inv == q.Resp { // sequential request: the only candidate explanation
 		q.Ps, q.Pr = q.Inv, nil
@@ -355,7 +352,7 @@ func explain(states []simState, q *jreq) bool {
 			if q.Ready && q.Code == 503 {
 				cnt := 0
 				for i, p := range pr {
-					if checks(p)[i].Status == "fail" {
+					if checks(p)[i].Status != "pass" {
 						cnt++
 					}
 				}
@@ -496,11 +493,12 @@ func finishHist(w *vh.W, c *jcase, fails []string) {
 	}
 	sig := ""
 	// shapes of the known findings, decided from the inputs only
-	if odd {
-		sig = sigStatus
-	} else if torn {
+	// (statuses other than pass/fail are still generated; the former finding
+	// check-status-neither-pass-nor-fail is fixed, so nothing is tolerated for them)
+	if torn {
 		sig = sigTorn
 	}
+	w.Count("odd_status", fmt.Sprint(odd))
 	for _, f := range fails {
 		w.Fail(idx, f, "")
 	}
@@ -1099,7 +1097,7 @@ func main() {
 			{Op: "sethealth", I: 1, Status: "pass", Msg: ""}},
 			Reqs: []jreq{{Inv: 1}, {Inv: 2}, {Inv: 3}, {Inv: 4}, {Inv: 5}}}
 		runSeq(w, &c)
-		// a status that is neither pass nor fail masks a failing check registered before it
+		// a status that is neither pass nor fail must not mask a failing check registered before it (fixed finding)
 		c = jcase{Kind: "corpus-odd-status", Mode: "seq", Ops: []jop{
 			{Op: "reghealth", Name: "bolt", Status: "fail", Msg: "bolt database not open", Kind: "named"},
 			{Op: "reghealth", Name: "query", Status: "", Msg: "", Kind: "named"},
